@@ -16,6 +16,7 @@ WB = """            for i, _, rng_state in indexed_chain_outputs:
 
 MUTANTS = [
     m("c14-jumped-const", "R1", "bit_generator.jumped(i)) for i in range(n_chain)", "bit_generator.jumped(1)) for i in range(n_chain)"),
+    m("c14-jump-depends-on-n_chain", "R1", "bit_generator.jumped(i)) for i in range(n_chain)", "bit_generator.jumped(i + n_chain)) for i in range(n_chain)"),
     m("c14-rngs-in-stage-loop", "R1", "            per_chain_rngs = _get_per_chain_rngs(self.rng, n_chain)\n", "", ),
     m("c14-global-rng", "R2", "        return self.metric.sqrt @ rng.standard_normal(state.pos.shape)", "        return self.metric.sqrt @ np.random.standard_normal(state.pos.shape)", file="systems.py"),
     m("c14-unseeded-rng", "R2", "    rng = np.random.default_rng(seed)", "    rng = np.random.default_rng()", file="interop.py"),
